@@ -32,11 +32,13 @@ class Spec(CheckSpec):
         shipped = [("data_manipulation.yaml", 40, 60), ("data_manipulation_marl.yaml", 40, 50), ("uc7_config.yaml", 25, 35), ("uc7_config_tap003.yaml", 25, 35)]
         for rep in range(1 if tier == "quick" else 5):
             for name, mel, nops in shipped:
-                yield {"seed": base_seed * 1000003 + 990000 + rep * 10 + len(name), "shipped": name, "max_episode_length": mel, "n_ops": nops, "monitors": ["c09"], "profile": {"push": 0.1}, "op_mix": {"step": 0.85, "reset": 0.05, "fault": 0.10}}
+                yield {"seed": base_seed * 1000003 + 990000 + rep * 10 + len(name), "shipped": name, "max_episode_length": mel, "n_ops": nops, "monitors": ["c09"], "faults_inside_steps": True, "profile": {"push": 0.1}, "op_mix": {"step": 0.85, "reset": 0.05, "fault": 0.10}}
         for i in range(n):
             seed = base_seed * 1000003 + 90000000 + i
             prof = {"obs": True, "push": 0.12, "tight_links": 0.15, "nmne": 0.7, "durations": [0, 1, 2, 3]}
-            yield {"seed": seed, "profile": prof, "n_ops": 50, "monitors": ["c09"], "op_mix": {"step": 0.75, "reset": 0.05, "fault": 0.20}}
+            # (the statement is about the end of a step under the agents' actions: faults are applied inside steps, where the
+            # actions of further agents are applied, not between two steps)
+            yield {"seed": seed, "profile": prof, "n_ops": 50, "monitors": ["c09"], "faults_inside_steps": True, "op_mix": {"step": 0.75, "reset": 0.05, "fault": 0.20}}
 
     def extra_evidence(self, results):
         seen: Dict[str, set] = {}
